@@ -2,21 +2,29 @@
 
 
 def register_all(chk):
-    chk.verus_property(
+    chk.contract_property(
         "C08", "WeightedAliasIndex encodes and samples exactly the given weights",
         "Unbounded deductive proof (Verus/Z3) over the text of weighted_alias.rs extracted from /repo on this run: `new` has its complete "
         "error/Ok contract and establishes table_ok (mass conservation per index); `weights()` returns the input exactly; `sample` returns "
         "pick(column, threshold) with non-zero weight; lemma_alias_exact counts exactly len*w[i] of the len*sum (column,threshold) pairs for "
         "index i. One instantiation per integer weight type. Float weights are not covered.")
-    chk.verus_property(
+    chk.contract_property(
         "C09", "WeightedTreeIndex stays consistent with its weight list under any update history",
         "Unbounded deductive proof (Verus/Z3) over the text of weighted_tree.rs extracted from /repo on this run: the representation invariant "
         "wf is established by `new` and preserved by push/pop/update, each with a postcondition over the whole abstract view (the weight list); "
         "errors leave the structure unchanged and Overflow is exact; lemma_canonical shows equal views imply == structures, so any history ends "
         "in the state `new(list)` builds. Induction over histories is the invariant argument - no bound on history length or tree size.")
-    chk.verus_property(
+    chk.contract_property(
         "C10", "WeightedTreeIndex samples proportionally to the current weights",
         "Unbounded deductive proof (Verus/Z3): for every wf state (hence after any history, C09) try_sample returns InsufficientNonZero iff the "
         "total is 0, otherwise the index and residual are descend(s,0,t) for the single drawn target t, both internal assert!s hold, the "
         "returned weight is > 0; lemma_descend_bijection shows t -> (index,residual) is a bijection onto {(i,r): r < w_i}, i.e. exactly w_i of "
         "the `total` equally likely targets select i. Integer weight types only.")
+    chk.contract_property(
+        "C04", "Constructors accept exactly the documented parameter domain and never panic",
+        "Every constructor carries a postcondition written from the documentation of its error variants (kx/spec.rs): Err iff a documented "
+        "condition holds, the variant returned is one whose condition holds, Ok otherwise, accessors report the arguments; panic-freedom is part "
+        "of every proof (unwrap/assert/overflow/bounds checks are obligations). Float constructors: Kani function contracts attached in place on an "
+        "overlay copy of /repo and proved by proof_for_contract harnesses over ALL argument bit patterns (loop-free, complete). Tree/alias "
+        "constructors: the Verus contracts of C08/C09. Regions where the documentation is silent or contradictory are marked unspecified in the spec.",
+        verus=True, kani=True)
